@@ -44,6 +44,42 @@ def add_failure(res, sig, what, replay, detail=None, limit_per_sig=1):
     res["failures"].append({"csig": cs, "sig": sig, "what": what, "replay": replay, "detail": detail, "count": 1})
 
 
+def run_one(mod, desc):
+    """run_task, with trace logging forced on for the "+trace" variant of a task (a process-wide configuration of the library)."""
+    from . import lib
+    traced = isinstance(desc, dict) and bool(desc.get("_trace"))
+    lib.FORCE_TRACE = traced
+    try:
+        lib.reset_globals()
+        r = mod.run_task(desc)
+    finally:
+        lib.FORCE_TRACE = False
+        lib.reset_globals()
+    if traced and isinstance(r, dict):
+        for f in r.get("failures", []):
+            f["sig"] = dict(f["sig"], trace=True)
+            f["csig"] = canon_sig(f["sig"])
+            f["what"] += "  [with enableTrace(True)]"
+            if isinstance(f.get("replay"), dict):
+                f["replay"]["_trace"] = True
+    return r
+
+
+def with_trace_variants(mod, tasks, tier):
+    """Adds the "+trace" twin of every task the check selects (trace_variant(desc, tier) -> bool; default: none)."""
+    pol = getattr(mod, "trace_variant", None)
+    if pol is None:
+        return tasks
+    extra = []
+    for t in tasks:
+        if not isinstance(t, dict):
+            continue
+        v = pol(t, tier)
+        if v:
+            extra.append(dict(t, _trace=True, name=str(t.get("name", "")) + "+trace", **(v if isinstance(v, dict) else {})))
+    return tasks + extra
+
+
 def _worker(conn, modname):
     import importlib
     try:
@@ -61,7 +97,7 @@ def _worker(conn, modname):
         idx, desc = msg
         try:
             _t0 = time.time()
-            r = mod.run_task(desc)
+            r = run_one(mod, desc)
             if isinstance(r, dict):
                 r["_wall"] = time.time() - _t0
             conn.send(("ok", idx, r))
